@@ -680,8 +680,16 @@ def schedule_recipe(draw, tier="quick", kernel=None):
     tags.append(f"widths:{wmode}")
     slack_rows = []
     # recipe-level flavour: most schedules access their operands completely; the odd index styles are confined to a minority
-    flavour = draw(st.sampled_from(["plain"] * 8 + ["conv"] * 4 + ["reversed"] * 2 + ["partial"] * 2))
+    flavour = draw(st.sampled_from(["plain"] * 8 + ["conv"] * 4 + ["reversed"] * 2 + ["partial"] * 3))
     tags.append(f"flavour:{flavour}")
+    unit_outer = False
+    if flavour in ("partial", "conv") and draw(st.booleans()):
+        # a loop that runs once over a dimension of a larger buffer (one row block of a matrix, a one-tap window): either an
+        # untiled dim of bound 1 or (below) a tiling whose outer loop has bound 1
+        unit_outer = draw(st.booleans())
+        if not unit_outer:
+            bounds[draw(st.integers(0, n - 1))] = 1
+        tags.append("has:unit-loop-on-partially-covered-operand")
     for q in range(nops):
         # dims this operand depends on; the rest are reduction dims (outputs) / broadcast dims (inputs)
         if q == nops - 1 or draw(st.integers(0, 2)) > 0 or n == 1:
@@ -778,14 +786,20 @@ def schedule_recipe(draw, tier="quick", kernel=None):
     # tilings
     ntile = draw(st.sampled_from([0, 1, 1, 2, 2, 3]))
     inner = []  # positions of inner tile dims
-    for _ in range(ntile):
-        cands = [d for d in range(r["dims"]) if _divisors(r["bounds"][d])]
+    if unit_outer:
+        ntile = max(1, ntile)
+    for it_ in range(ntile):
+        whole = unit_outer and it_ == 0  # the outer loop of this tiling runs once
+        cands = [d for d in range(r["dims"]) if _divisors(r["bounds"][d]) or (whole and r["bounds"][d] > 1)]
         if not cands:
             break
         d = draw(st.sampled_from(cands))
         divs = _divisors(r["bounds"][d])
         pref = [t for t in divs if t in T]
-        t = draw(st.sampled_from(pref)) if pref and draw(st.booleans()) else draw(st.sampled_from(divs))
+        if whole:
+            t = r["bounds"][d]
+        else:
+            t = draw(st.sampled_from(pref)) if pref and draw(st.booleans()) else draw(st.sampled_from(divs))
         r = tile_recipe(r, d, t)
         inner = [p + 1 if p > d else p for p in inner] + [d + 1]
         tags.append("tiled-schedule")
